@@ -616,6 +616,14 @@ def run(ck):
         tjobs.append({"t": "traffic", "ext": "brotli", "off": [1, 1], "acc": [1, -1], "racc": [-1], "msgs": [
             {"api": "whole", "kind": "comp", "n": 1 << 20, "bin": 0, "frag": None, "dnc": 0, "cut": "few"},
             {"api": "whole", "kind": "rand", "n": 1 << 20, "bin": 1, "frag": 65536, "dnc": 0, "cut": "few"}]})
+    # window probes: asymmetric windows, a message whose only redundancy lies far outside the small window - an inflater
+    # created with the wrong side's window (smaller than the peer's deflater) cannot decode it
+    for off, acc in (([1, 1, 0, 0], [0, W[0], -1, -1, -1]), ([1, 1, 0, W[0]], [0, 0, -1, -1, -1]),
+                     ([1, 1, 0, 0], [0, W[0], -1, W[0] + 1, -1]), ([1, 1, 1, W[0] + 1], [1, W[-1], -1, -1, -1])):
+        tjobs.append({"t": "traffic", "ext": "deflate", "off": off, "acc": acc, "racc": [-1, -1, -1], "msgs": [
+            {"api": "whole", "kind": "far", "n": 6000, "bin": 1, "frag": None, "dnc": 0, "cut": "few"},
+            {"api": "whole", "kind": "far", "n": 70000, "bin": 1, "frag": 4096, "dnc": 0, "cut": "two"},
+            {"api": "whole", "kind": "comp", "n": 300, "bin": 0, "frag": None, "dnc": 0, "cut": "all"}]})
     # the frame-level streaming API (beginMessage / beginMessageFrame / sendMessageFrameData / endMessage) on a compressed
     # connection: oracle only (the model covers sendMessage and beginMessage/sendMessageFrame/endMessage)
     for dnc in (0, 1):
@@ -839,6 +847,13 @@ def replay(path):
                     if m["sent"] != "ok" or m.get("recv_bad") or m.get("same") is False:
                         print(f"  FAILS: {dname} message #{mi + 1}: sent={m['sent']} {m.get('where', '')} recv={m.get('recv_bad')} same={m.get('same')}")
                         rc = 1
-            if job["ext"] == "brotli":
-                print("model: C12_typestate_refuted (send_msgs on disc_brotli with context takeover raises ETypestate OnFinished at message 2)")
+            if job["ext"] == "deflate" and res.get("code") == 3:
+                s_set, c_set = res["sets"]
+                for dname, dres, lib in res["dirs"]:
+                    if lib["comp_args"] and lib["decomp_args"]:
+                        got = (-lib["comp_args"][2], -lib["decomp_args"][0])
+                        want = (s_set[3], c_set[3]) if dname == "s2c" else (c_set[4], s_set[4])
+                        print(f"  {dname}: zlib windows (deflater, inflater) = {got}, negotiated settings say {want}" + ("" if got == want else "   <-- FAILS"))
+                        if got != want:
+                            rc = 1
     return rc
